@@ -5,7 +5,7 @@ set -u
 B=${1:?builddir}
 export GOFLAGS=-mod=mod GOPROXY=off GOSUMDB=off GOTOOLCHAIN=local
 GO=go1.26.8
-V=/verif
+V=${VERIF_ROOT:-/verif}
 TB=$V/.build/tools
 mkdir -p "$B" "$TB" || exit 2
 fail() { echo "BUILD-ERROR: $*" >&2; exit 2; }
